@@ -247,7 +247,7 @@ PROPS["C18"] = dict(
     level_text="All sequences up to the completed depth over 87 operations (every setter with in-range, boundary and invalid arguments, hooks, opn2_reset, emulator switches, valid/garbage/truncated/empty bank files, valid/garbage/truncated/zero-division music files, track and channel options, device-addressed SysEx, a playback probe) "
                "are executed; after every call all getters and the privately visible settings must equal the reference record, and a call that reports failure must leave the complete snapshot (player, synth, sequencer, hooks, running chips) unchanged and, for files, a non-empty error text.",
     level_note="void setters with out-of-range arguments make the affected setting 'unknown' until the next in-range set (the statement defines nothing there); whether the previous song survives a rejected music file is a don't-care; the playback clock fields (delay, carry, skip counter) are not settings and are excluded from the snapshot; emulator ids 32+ (shift aliasing) belong to C03",
-    legs=[Leg("settings", ["models/c18_settings.cpp"], "fast", ["--depth", "3"], ["--depth", "4"], timeout_thorough=14000)],
+    legs=[Leg("settings", ["models/c18_settings.cpp"], "fast", ["--depth", "3"], ["--depth", "5"], timeout_thorough=14000)],
     rule="BFS; a state is distinct when the snapshot or the reference record differs",
     assumptions=RT_ASSUME[:2],
 )
